@@ -25,6 +25,10 @@ from .normalize import as_test, negate
 __all_reexport__ = (as_test, negate)
 
 
+# bare callee name -> positional parameter names, for project functions whose parameter list is unambiguous (set by cli)
+SIGNATURES: Dict[str, List[str]] = {}
+
+
 class Unmodelled(Exception):
     pass
 
@@ -497,6 +501,23 @@ class _PM:
     def _call(self, p: ast.Call, n: ast.Call) -> bool:
         if not self.match(p.func, n.func):
             return False
+        # calls of project functions with an unambiguous parameter list match whether an argument is written
+        # positionally or by keyword
+        name = n.func.id if isinstance(n.func, ast.Name) else (n.func.attr if isinstance(n.func, ast.Attribute) else None)
+        sig = SIGNATURES.get(name) if name else None
+        if sig and (len(p.args) != len(n.args) or {k.arg for k in p.keywords} != {k.arg for k in n.keywords}):
+            def as_kw(c):
+                if any(isinstance(a, ast.Starred) for a in c.args) or any(k.arg is None for k in c.keywords) or len(c.args) > len(sig):
+                    return None
+                d = {sig[i]: a for i, a in enumerate(c.args)}
+                for k in c.keywords:
+                    if k.arg in d:
+                        return None
+                    d[k.arg] = k.value
+                return d
+            dp, dn = as_kw(p), as_kw(n)
+            if dp is not None and dn is not None:
+                return set(dp) == set(dn) and all(self.match(dp[k], dn[k]) for k in dp)
         # a pattern argument list ending in `ANY_REST` style star is not supported; keywords match by name, any order
         if len(p.args) != len(n.args):
             return False
